@@ -26,37 +26,6 @@ theorem digit_cases (c : UInt8) (h : isDigit c = true) :
 theorem optKind_digit (c : UInt8) (h : isDigit c = true) : optKind c = .bad := by
   rcases digit_cases c h with rfl | rfl | rfl | rfl | rfl | rfl | rfl | rfl | rfl | rfl <;> decide
 
-def digitsOf (s : Bytes) : Bytes := s.takeWhile isDigit
-def afterDigits (s : Bytes) : Bytes := s.dropWhile isDigit
-def valFrom (n : Nat) (ds : Bytes) : Nat := ds.foldl (fun a c => a * 10 + (c.toNat - 48)) n
-
-/-- what `getOptSize` returns when it does not overflow -/
-theorem getOptSize_spec : ∀ (s : Bytes) (n : Nat) (ok : Bool) (m : Nat) (ok' : Bool) (r : Bytes),
-    getOptSize s n ok = .ok (m, ok', r) →
-    m = valFrom n (digitsOf s) ∧ ok' = (ok || !(digitsOf s).isEmpty) ∧ r = afterDigits s := by
-  intro s
-  induction s with
-  | nil =>
-    intro n ok m ok' r h
-    simp [getOptSize] at h
-    simp [digitsOf, afterDigits, valFrom, h.1, h.2.1, h.2.2]
-  | cons c cs ih =>
-    intro n ok m ok' r h
-    unfold getOptSize at h
-    by_cases hd : isDigit c = true
-    · simp only [hd, if_true] at h
-      split at h
-      · simp at h
-      · split at h
-        · simp at h
-        · obtain ⟨i1, i2, i3⟩ := ih _ _ _ _ _ h
-          simp [digitsOf, afterDigits, valFrom, hd, List.takeWhile_cons, List.dropWhile_cons] at i1 i2 i3 ⊢
-          exact ⟨i1, i2, i3⟩
-    · simp only [hd, Bool.false_eq_true, if_false, Except.ok.injEq, Prod.mk.injEq] at h
-      obtain ⟨h1, h2, h3⟩ := h
-      subst h1; subst h2; subst h3
-      simp [digitsOf, afterDigits, valFrom, hd, List.takeWhile_cons, List.dropWhile_cons]
-
 theorem headNumber_eq (s : Bytes) :
     headNumber s = if (digitsOf s).isEmpty then none else some (valFrom 0 (digitsOf s)) := by
   simp [headNumber, digitsOf, valFrom]
@@ -125,12 +94,10 @@ theorem step_pack (rd : Rd) (c : UInt8) (rest : Bytes) (hi : Inv rd.alignOnly (c
   have hol : optionLetter c = true := by simp [optionLetter, hb]
   simp only [hol, Bool.not_true, Bool.false_eq_true, if_false] at hm
   have hao := inv_head _ _ _ hi
-  have hndx := hi.1
   unfold readOpt mkItem
   unfold alignable at hao
   unfold takesSize at hm
-  simp only [noDanglingX] at hndx
-  cases hk : optKind c <;> simp only [hk] at hm hao hndx ⊢
+  cases hk : optKind c <;> simp only [hk] at hm hao ⊢
   case bad => exact absurd hk hb
   case bang =>
     cases hs : smallOptSize rest 1 with
@@ -171,10 +138,12 @@ theorem step_pack (rd : Rd) (c : UInt8) (rest : Bytes) (hi : Inv rd.alignOnly (c
       rw [s1, ← mf_true_digits]
       simpa [s2] using hm
   case alignNext =>
-    right; refine ⟨_, _, _, rfl, ?_⟩
     cases rest with
-    | nil => simp at hndx
-    | cons d t => simpa using hm
+    | nil => left; exact ⟨_, rfl⟩
+    | cons d t =>
+      by_cases hd : alignable d = true
+      · right; simp only [hd, if_true]; exact ⟨_, _, _, rfl, by simpa [hd] using hm⟩
+      · left; simp only [hd, Bool.false_eq_true, if_false]; exact ⟨_, rfl⟩
   all_goals (right; exact ⟨_, _, _, rfl, by simpa using hm⟩)
 
 theorem afterDigits_length (s : Bytes) : (afterDigits s).length ≤ s.length := by
@@ -250,7 +219,7 @@ theorem unpackLoop_malformed : ∀ (fuel : Nat) (rd : Rd) (fmt : Bytes) (j : Nat
     | cons c rest =>
       simp only [List.length_cons] at hf
       unfold unpackLoop
-      rw [readOpt_unpack_eq rd c rest (inv_head _ _ _ hi)]
+      rw [readOpt_unpack_eq rd c rest]
       rcases step_pack rd c rest hi hm with ⟨e, he⟩ | ⟨opt, rd', rest', hr, hm'⟩
       · exact ⟨e, by simp [he]⟩
       · have hi' := inv_step rd rd' c rest rest' opt hi hr
@@ -260,7 +229,7 @@ theorem unpackLoop_malformed : ∀ (fuel : Nat) (rd : Rd) (fmt : Bytes) (j : Nat
         | nop => exact ih rd' rest' j data (by omega) hi' hm'
         | item al ao body =>
           simp only
-          cases ha : alignPad rd false al j with
+          cases ha : alignPad rd true al j with
           | error e => exact ⟨e, rfl⟩
           | ok pad =>
             simp only
